@@ -9,7 +9,9 @@
     [denote] does not take the choice oracle: independence of the denoted infoset from the
     surface choices holds by construction; every oracle is admissible ([all_choices_ok]).
 
-    Proved here (closed, for every oracle, every string / continuation): the LEXICAL RUNG.
+    Proved here (closed, for every oracle, every string / continuation): the LEXICAL RUNG (a)-(c), the
+    grammar of elements (d), and -- round 2 -- the whole of [render_wf] plus acceptance by the model for
+    documents WITHOUT a document type declaration (e), (f).
     (a) the renderings of comments, PIs and character references of Spec/Infoset.v are read back by
         the recognisers of Spec/XmlWF.v ([render_*_wf], [char_ref_roundtrip]); attribute-value literals
         are read back by [p_AttValue] and their normalized value is independent of the oracle; character
@@ -29,18 +31,34 @@
         that translates back to the specification's tree, provided names are QNames and end tags match
         (both follow from wf).  Proofs/XmlWFSyntaxConv*.v; with C02 (4) the two languages coincide on
         this class outside findings D04 and WFNS20-23 (Properties/C02.v (8)).
-    Not proved: the well-formedness CONSTRAINTS and namespace constraints on the tree that is read back
-    (element type match holds by construction of the rendering; attribute uniqueness and the namespace
-    checks need the permutation lemmas), the prolog / XML declaration / DTD rung of [render_wf], and
-    [parse_render] (named [render_wf_partial], [parse_render_partial] in notes/wf_STATUS.md); they are
-    covered by checks/C01.py, which evaluates wf (render d c) and
+    (f) round 2 -- [render_wf] AND ACCEPTANCE FOR EVERY VALID ABSTRACT DOCUMENT WITHOUT A DOCUMENT TYPE
+        DECLARATION, every oracle ([render_wf_nodoctype_partial], [rendered_nodoctype_is_accepted_partial]):
+          forall d c, valid d = true -> a_doctype d = None -> wf (render d c) = true
+          forall d c, valid d = true -> a_doctype d = None -> exists doc, from_raw (render d c) = OOk ([], doc)
+        All rungs: XML declaration (version, encoding, standalone in any quoting / spacing), Misc before and
+        after the root, the element tree to any depth with the tree that is read back known explicitly
+        ([render_node_reads]: attributes in the oracle's order with the oracle's pieces, character data as the
+        oracle's mixture of characters / references / CDATA sections, empty-element tags) and with the fuel
+        of the specification bounded by the length of the rendering; the CONSTRAINTS on the tree read back
+        (Unique Att Spec under the permutation, Legal Character, Entity Declared, No < in Attribute Values,
+        Element Type Match) and the NAMESPACE constraints (declared prefixes, reserved names, duplicate
+        expanded names: invariant under the permutation of attributes and the choice of value pieces, because
+        the normalized attribute values do not depend on the oracle) follow from those of the canonical
+        tree, which [valid] demands.  Proofs/XmlWFSyntaxRender{Node,Check,Doc}.v.  Acceptance then follows
+        from (e).
+    Not proved: documents WITH a document type declaration -- the DTD rung of [render_wf] (renderings of
+    the declarations read back by the specification, the constraints with declared entities and defaulted
+    attributes) and the converse (e) for the internal subset -- and, for all documents, [parse_render]
+    (the infoset the model builds from the rendering is [denote d]; named [parse_render_partial] in
+    notes/wf_STATUS.md).  These are covered by checks/C01.py, which evaluates wf (render d c) and
     infoset_of_string (render d c) = denote d with the extracted functions on every generated case,
     compares with the real crates, and cross-checks the specification against expat. *)
 From Coq Require Import List NArith Bool.
 From XmlRs Require Import Base.CPred Spec.XmlChars Spec.XmlWF Spec.Infoset Model.Peg Gen.GrammarXmlGen
   Proofs.NameLanguage Proofs.XmlWFLexical Proofs.XmlWFRender.
 From XmlRs Require Model.ParseActions Model.Info Proofs.ParseInvElem Proofs.XmlWFSyntaxDoc Proofs.XmlWFSyntaxCheck
-  Proofs.XmlWFSyntaxConvElem Proofs.XmlWFSyntaxConvDoc Proofs.XmlWFSyntaxConvCheck.
+  Proofs.XmlWFSyntaxConvElem Proofs.XmlWFSyntaxConvDoc Proofs.XmlWFSyntaxConvCheck
+  Proofs.XmlWFSyntaxRenderNode Proofs.XmlWFSyntaxRenderCheck Proofs.XmlWFSyntaxRenderDoc.
 Import ListNotations.
 
 (** every oracle is an admissible choice of surface forms *)
@@ -125,6 +143,29 @@ Theorem wellformed_nodoctype_is_accepted_partial : forall s,
             /\ XmlWFSyntaxCheck.KnownD04_nodoctype s = false.
 Proof. exact XmlWFSyntaxConvCheck.wf_nodoctype_accepted. Qed.
 
+(** ** (f) render_wf and acceptance for documents without DOCTYPE *)
+Theorem render_node_reads : forall x, node_ok x = true -> forall c p, XmlWFSyntaxRenderNode.parses2 c p x.
+Proof. exact XmlWFSyntaxRenderNode.valid_node_reads. Qed.
+
+Theorem render_wf_nodoctype_partial : forall d c, valid d = true -> a_doctype d = None -> wf (render d c) = true.
+Proof. intros d c Hv Hd. exact (proj1 (XmlWFSyntaxRenderDoc.render_wf_nodoctype d c Hv Hd)). Qed.
+
+Theorem rendered_nodoctype_is_accepted_partial : forall d c, valid d = true -> a_doctype d = None ->
+  exists doc, Info.from_raw (render d c) = Info.OOk ([], doc).
+Proof. exact XmlWFSyntaxRenderDoc.render_accepted_nodoctype. Qed.
+
+(** the hypotheses are satisfiable: XML declaration, comment, namespaces, attributes, text, a PI, a reference *)
+Definition ex_adoc : adoc :=
+  {| a_version := Some [49;46;48]%N; a_encoding := Some [85;84;70;45;56]%N; a_standalone := Some true;
+     a_misc1 := [AComment [32;99;32]%N]; a_doctype := None; a_misc2 := [];
+     a_root := AElem [112;58;97]%N
+                 [([120;109;108;110;115;58;112]%N, [IText [117]%N]); ([120]%N, [IText [49;60;9]%N; IRef [97;109;112]%N])]
+                 [AText [116;38;60;93;93;62]%N; AElem [98]%N [] []; API [112;105]%N (Some [100]%N); ARef [108;116]%N];
+     a_misc3 := [API [113]%N None] |}.
+
+Example nodoctype_valid_nonvacuous : valid ex_adoc = true /\ a_doctype ex_adoc = None.
+Proof. split; [vm_compute; reflexivity|reflexivity]. Qed.
+
 Example rendered_nontrivial :
   comment_ok [32;97;45;98;32]%N = true /\ pi_ok [112;105]%N (Some [120;63;32;62]%N) = true.
 Proof. split; vm_compute; reflexivity. Qed.
@@ -141,3 +182,6 @@ Print Assumptions parser_accepts_rendered_comment.
 Print Assumptions parser_accepts_rendered_pi.
 Print Assumptions spec_grammar_is_accepted_nodoctype_partial.
 Print Assumptions wellformed_nodoctype_is_accepted_partial.
+Print Assumptions render_node_reads.
+Print Assumptions render_wf_nodoctype_partial.
+Print Assumptions rendered_nodoctype_is_accepted_partial.
